@@ -71,6 +71,11 @@ CHECKS = {
    "Histories of registrations, merges, reads, writes and calls over escaped/empty/array/deep pointers run on two registries (direct dispatch and through Router::with_registry under generated prefixes, alternating owned and borrowed dispatch); outcome class, full tree and callable invocation log (exactly once, exact body) compared with the model after every op; concurrent 4x4 request histories must be linearizable including the final tree.",
    "Only documented registration shapes are generated; non-canonical array indices are treated as unspecified; acknowledgement contents not pinned.",
    "DESIGN.md §4 C14"),
+ "C15": ("fault_enumeration",
+   "enumerated exit-cause x phase x entry-point grid plus proptest-generated multi-connection cases (1..32 concurrent) against the WebSocket server, in-process over duplex streams and through the real accept loops; hook counters and registry lookups as oracle",
+   "For every exit cause (clean close, abrupt loss, text frame, unmasked frame, bad magic, trailing bytes, inline handler panic, connect-callback panic first/second, embedder cancellation, graceful-drain shutdown, failed handshakes) crossed with the connection phase (idle, inline handler running, off-reader handler parked, unread outbound backlog) and the entry point: the disconnect callback runs exactly once (never for a failed handshake), the peer and its alias resolve from connect hooks, handlers and just before the trigger and no longer afterwards, the connect-queued notifies precede the first response in order, and parked off-reader handlers observe cancellation.",
+   "10 s watchdog; cooperative parked handlers; embedder cancel via serve_connection_with_cancel.",
+   "DESIGN.md §4 C15"),
  "C16": ("exploration",
    "generated saturation scenarios against the in-process WebSocket server with gate-controlled handlers; exhaustive release orders x exit kinds for caps 1..3, random caps up to 16 and unlimited; saturation observed through the handlers' own signals",
    "The in-handler gauge never exceeds the cap; a request at the cap is answered ResourceExhausted before any parked handler is released and its handler never runs; a notify at the cap never runs; inline requests are answered during saturation; every released handler's caller gets its own response (panic -> InternalError with its id); after all exits the full cap can be occupied again; the connection keeps answering; with and without a forwarding middleware.",
